@@ -1,6 +1,6 @@
 (* C15 — Property reads and writes over the wire are consistent, typed, all-or-nothing.
    Property theorems only; the model is Bac.Obj, proofs live in Bac.ObjFacts / ObjRw / ObjRpm. *)
-From Bac Require Import Base PyRt Obj ObjFacts ObjRw ObjRpm.
+From Bac Require Import Base PyRt Obj ObjFacts ObjRw ObjRpm ObjWire.
 Open Scope Z_scope.
 
 (* After an acknowledged WriteProperty (any datatype, any array index class) ReadProperty of the same property
@@ -132,6 +132,44 @@ Theorem C15_rpm_total : forall d specs,
 Proof. exact rpm_total. Qed.
 Print Assumptions C15_rpm_total.
 
+(* ---- the array index as it travels (context-tagged Unsigned; step_wire = decode the index octets, then step) ----
+   An index element that is present in the request is never read as "no index": whatever its octets (any number of
+   them, leading zeros, all ones) it is Some i with i their big-endian value; only empty data is refused (Reject
+   invalid-tag, by the decoder).  So no index value — in particular none of the all-ones markers 0xFF, 0xFFFF,
+   0xFFFFFFFF, ... other stacks use for "all elements" — is an alias of the whole property. *)
+Theorem C15_wire_index_total : forall bs, bs <> [] -> octets bs ->
+  exists i, wire_index (Some bs) = Ok (Some i) /\ i = be_value 0 bs /\ 0 <= i < 256 ^ zlength bs.
+Proof. exact wire_index_total. Qed.
+Print Assumptions C15_wire_index_total.
+
+Theorem C15_wire_index_all_ones : forall k,
+  wire_index (Some (repeat 255 (S k))) = Ok (Some (256 ^ Z.of_nat (S k) - 1)).
+Proof. exact wire_index_all_ones. Qed.
+Print Assumptions C15_wire_index_all_ones.
+
+(* every index the library's own encoder can send (0 .. 2^32-1, the domain of struct.pack('>L')) reaches the
+   service as itself, for ReadProperty and for WriteProperty *)
+Theorem C15_wire_index_sent : forall d oid pid i prio w, 0 <= i <= 4294967295 ->
+  exists bs, enc_index i = Ok bs /\
+    step_wire d (WRead oid pid (Some bs)) = step d (ORead oid pid (Some i)) /\
+    step_wire d (WWrite oid pid (Some bs) prio w) = step d (OWrite oid pid (Some i) prio w).
+Proof. exact wire_index_sent. Qed.
+Print Assumptions C15_wire_index_sent.
+
+(* an index that designates neither the length nor an element — any index on a property that is not an array, an
+   index beyond the length of an ArrayOf — is refused whatever its size: ReadProperty and WriteProperty answer
+   Error property/invalid-array-index (array) or property/property-is-not-an-array, the device is unchanged, and
+   ReadPropertyMultiple embeds that very error for the reference *)
+Theorem C15_wire_index_refused : forall d oid pid bs prio w o p cur,
+  bs <> [] -> find_prop o pid = Some (p, cur) -> index_is_bad p cur (be_value 0 bs) ->
+  (find_obj (d_objs d) (map_oid d oid) = Some o ->
+     step_wire d (WRead oid pid (Some bs)) = (RError EC_PROPERTY (bad_index_code p), d)) /\
+  (find_obj (d_objs d) oid = Some o ->
+     step_wire d (WWrite oid pid (Some bs) prio w) = (RError EC_PROPERTY (bad_index_code p), d)) /\
+  rp_element (Some o) pid (Some (be_value 0 bs)) = XOk (pid, Some (be_value 0 bs), RErr EC_PROPERTY (bad_index_code p)).
+Proof. exact wire_index_refused. Qed.
+Print Assumptions C15_wire_index_refused.
+
 (* non-vacuity: the hypotheses are met by concrete devices and requests *)
 Example C15_ex_write_then_read : exists d',
   do_write ex_dev 1 85 None (ex_w [WApp 4 12]) = XOk d' /\
@@ -164,3 +202,15 @@ Example C15_ex_life_cycle :
   arr_remove (VArr 2 [EAtom 12 5; EAtom 12 6]) (EAtom 12 5) = Ok (VArr 1 [EAtom 12 6]) /\
   arr_remove (VArr 1 [EAtom 12 6]) (EAtom 12 5) = Err ValueErr.
 Proof. repeat split; vm_compute; reflexivity. Qed.
+Example C15_ex_wire_index :
+  wire_index (Some [255; 255; 255; 255]) = Ok (Some 4294967295) /\
+  enc_index 4294967295 = Ok [255; 255; 255; 255] /\ enc_index 256 = Ok [1; 0] /\
+  wire_index (Some [0; 0; 0; 2]) = Ok (Some 2) /\ wire_index (Some []) = Err InvalidTag /\
+  wire_index None = Ok None.
+Proof. repeat match goal with |- _ /\ _ => split end; vm_compute; reflexivity. Qed.
+Example C15_ex_wire_refused :
+  fst (step_wire ex_dev (WRead 1 87 (Some [255; 255; 255; 255]))) = RError EC_PROPERTY E_INVALID_ARRAY_INDEX.
+Proof. vm_compute. reflexivity. Qed.
+Example C15_ex_wire_not_array :
+  fst (step_wire ex_dev (WWrite 1 85 (Some [255; 255; 255; 255]) None (ex_w [WApp 4 9]))) = RError EC_PROPERTY E_NOT_AN_ARRAY.
+Proof. vm_compute. reflexivity. Qed.
